@@ -131,6 +131,7 @@ def cases(tier):
                 # the caller re-uses ONE list object for the species of successive views (or passes a tuple / a one-shot iterator)
                 out.append(dict(kind='history', file=fname, ops=h, container='shared'))
             if nv == 1 and len(h) <= 3:
+                out.append(dict(kind='history', file=fname, ops=h, container='both-kwargs'))
                 out.append(dict(kind='history', file=fname, ops=h, container='tuple'))
                 out.append(dict(kind='history', file=fname, ops=h, container='iterator'))
     short = [h for h in hs if len(h) <= 3 and any(op[0] in 'RT' for op in h)]
@@ -219,7 +220,11 @@ def run_history(case):
             else:
                 cont = list(S)
             parent = base if op[0] == 'V' else views[op[1]]
-            views.append(FilteredConfigParser(parent, **{mode: cont}))
+            if kind == 'both-kwargs' and S:
+                # both keyword arguments given, the unused one as an empty list (wrappers that pass `x or []`; the class's historical signature)
+                views.append(FilteredConfigParser(parent, **{mode: cont, ('exclude' if mode == 'include' else 'include'): []}))
+            else:
+                views.append(FilteredConfigParser(parent, **{mode: cont}))
             vf.append((op[1],) if op[0] == 'V' else vf[op[1]] + (op[2],))
             read.append(0)
         else:
